@@ -3,7 +3,7 @@
    if the field was supplied, otherwise the previous one"; NATIVE is the denom "ustars".
    Numbers range over all of N, hence over every u32/u64/u128 the messages can carry. *)
 From Coq Require Import String.
-From LP Require Import Params Status Consts ParamsProofs StatusProofs.
+From LP Require Import Params Status Consts ParamsProofs StatusProofs Sg1 Factory C18FactoryProofs.
 Import ListNotations.
 Local Open Scope N_scope.
 
@@ -267,6 +267,48 @@ Theorem C18_lowered_token_limit_blocks_old_max : forall p m p' r n,
   n < vr_num_tokens r -> vending_create p' r = Err.
 Proof. exact lowered_token_limit_blocks_old_max. Qed.
 
+(* ---- the creation fee governance supplied is the fee creations pay (Factory.v's
+   factory_create, the C08 model of execute_create_minter incl. the sg1 fee helpers) ---- *)
+(* after an accepted update that supplied creation_fee = f, each factory's parameters carry f *)
+Theorem C18_supplied_fee_is_carried :
+  (forall p m p' f, base_sudo p m = Ok p' -> cm_creation_fee m = Some f -> cp_creation_fee p' = f) /\
+  (forall p m p' f, vending_sudo p m = Ok p' -> cm_creation_fee (vm_common m) = Some f ->
+                    cp_creation_fee (vp_common p') = f) /\
+  (forall p m p' f, oe_sudo p m = Ok p' -> cm_creation_fee (om_common m) = Some f ->
+                    cp_creation_fee (op_common p') = f) /\
+  (forall p m p' f, tm_sudo p m = Ok p' -> tm_creation_fee m = Some f -> tp_creation_fee p' = f).
+Proof. exact (conj base_supplied_fee (conj vending_supplied_fee (conj oe_supplied_fee tm_supplied_fee))). Qed.
+
+(* whenever the stored parameters carry the fee f (amount and denom), an accepted creation on
+   ANY factory paid exactly one coin, in f's denom, non-zero, at least f (open edition: exactly f) *)
+Theorem C18_accepted_creation_paid_the_carried_fee : forall k self g now funds r ms f,
+  g_fee g = c_amount f /\ g_fee_denom g = c_denom f ->
+  factory_create k self g now funds r = Ok ms ->
+  exists paid, funds = [mkCoin (c_denom f) paid] /\ paid <> 0 /\ c_amount f <= paid /\
+               (k = FOpen -> paid = c_amount f).
+Proof. exact create_pays_fee. Qed.
+
+Theorem C18_underpaying_the_carried_fee_is_refused : forall k self g now r f paid,
+  g_fee g = c_amount f /\ g_fee_denom g = c_denom f -> paid < c_amount f ->
+  factory_create k self g now [mkCoin (c_denom f) paid] r = Err.
+Proof. exact underpay_refused. Qed.
+
+Theorem C18_paying_in_another_denom_is_refused : forall k self g now r f d paid,
+  g_fee g = c_amount f /\ g_fee_denom g = c_denom f -> d <> c_denom f ->
+  factory_create k self g now [mkCoin d paid] r = Err.
+Proof. exact other_denom_refused. Qed.
+
+(* base factory, both directions: accepted iff the payment rule for f holds, the collection code
+   is allowed and the factory is not frozen (native or not: the fee stage never refuses a
+   payment of at least f) *)
+Theorem C18_base_creation_iff_payment_rule : forall self g now funds r f,
+  g_fee g = c_amount f /\ g_fee_denom g = c_denom f ->
+  ((exists ms, factory_create FBase self g now funds r = Ok ms) <->
+   (exists paid, funds = [mkCoin (c_denom f) paid] /\ paid <> 0 /\ c_amount f <= paid /\
+                 (FBase = FOpen -> paid = c_amount f)) /\
+   In (r_coll_code r) (g_allowed g) /\ g_frozen g = false).
+Proof. exact base_create_iff_rule. Qed.
+
 (* the network fee a mint pays under the factory's current mint_fee_bps *)
 Theorem C18_mint_fee_reads_bps : forall price bps, mint_network_fee price bps = price * bps / 10000.
 Proof. exact mint_network_fee_bps. Qed.
@@ -339,3 +381,8 @@ Print Assumptions C18_removed_code_id_blocks_creation.
 Print Assumptions C18_raised_fee_blocks_old_payment.
 Print Assumptions C18_lowered_token_limit_blocks_old_max.
 Print Assumptions C18_mint_fee_reads_bps.
+Print Assumptions C18_supplied_fee_is_carried.
+Print Assumptions C18_accepted_creation_paid_the_carried_fee.
+Print Assumptions C18_underpaying_the_carried_fee_is_refused.
+Print Assumptions C18_paying_in_another_denom_is_refused.
+Print Assumptions C18_base_creation_iff_payment_rule.
